@@ -112,7 +112,66 @@ def run_one(mod, plan: dict[str, Any]) -> dict[str, Any]:
     return res
 
 
+def _isolated(fn, *args):
+    """Run fn(*args) in a forked child and return its (picklable) result: whatever state the code under test keeps at module or
+    class level dies with the child, so every chunk of runs - and every candidate of the minimiser - starts from the same,
+    pristine process state."""
+    if os.environ.get("VERIF_NO_FORK"):
+        return fn(*args)
+    import pickle
+    r, w = os.pipe()
+    child = os.fork()
+    if child == 0:
+        rc = 0
+        try:
+            os.close(r)
+            try:
+                data = pickle.dumps(("ok", fn(*args)), protocol=pickle.HIGHEST_PROTOCOL)
+            except BaseException:  # pylint: disable=broad-except
+                data = pickle.dumps(("error", traceback.format_exc(limit=12)))
+            with os.fdopen(w, "wb") as f:
+                f.write(data)
+        except BaseException:  # pylint: disable=broad-except
+            rc = 1
+        finally:
+            os._exit(rc)
+    os.close(w)
+    with os.fdopen(r, "rb") as f:
+        data = f.read()
+    os.waitpid(child, 0)
+    if not data:
+        raise RuntimeError("isolated child died without a result")
+    kind, val = pickle.loads(data)
+    if kind == "error":
+        raise RuntimeError("isolated child failed:\n" + val)
+    return val
+
+
+_PRELOADED = False
+
+
+def _preload():
+    """Import the package under test once, before forking: a child that has to import it (cryptography included) inside its
+    first run does so under that run's CPU-time watchdog.  Importing creates no instance of anything."""
+    global _PRELOADED  # pylint: disable=global-statement
+    if _PRELOADED:
+        return
+    _PRELOADED = True
+    for name in ("xknx", "xknx.devices", "xknx.io", "xknx.io.tunnel", "xknx.io.routing", "xknx.io.device_management_connection",
+                 "xknx.io.gateway_scanner", "xknx.io.ip_secure", "xknx.management", "xknx.management.procedures",
+                 "xknx.secure.keyring", "xknx.secure.data_secure", "xknx.tools"):
+        try:
+            importlib.import_module(name)
+        except Exception:  # pylint: disable=broad-except
+            pass
+
+
 def _chunk_worker(args):
+    _preload()
+    return _isolated(_chunk_body, args)
+
+
+def _chunk_body(args):
     pid, master, tier, lo, hi, keep = args
     faulthandler.dump_traceback_later(float(os.environ.get("VERIF_CHUNK_TIMEOUT", "1500")), exit=True)
     mod = load_prop(pid)
@@ -150,7 +209,7 @@ def _chunk_worker(args):
                 slot = agg["viol"].setdefault(s, {"count": 0, "first": None})
                 slot["count"] += 1
                 if slot["first"] is None:
-                    slot["first"] = {"plan": res["plan"], "violation": v, "seed": seed, "index": i}
+                    slot["first"] = {"plan": res["plan"], "violation": v, "seed": seed, "index": i, "chunk_lo": lo}
         if len(agg["samples"]) < keep and (res["nontrivial"] or i == lo):
             agg["samples"].append(mod.sample(res) if hasattr(mod, "sample") else _default_sample(res))
         if (i & 63) == 0:
@@ -231,12 +290,43 @@ def run_batch(pid: str, master: int, tier: str, n_runs: int, wall_budget: float 
 
 
 # ------------------------------------------------------------------ minimise
-def _still_fails(mod, plan, sig) -> bool:
+def _fails_after(pid: str, history: list, plan, sig) -> bool:
+    mod = load_prop(pid)
+    for h in history:
+        run_one(mod, h)
     res = run_one(mod, plan)
     return any(sig_of(v) == sig for v in res["violations"])
 
 
-def minimise(mod, plan: dict[str, Any], sig: str, budget_s: float = 25.0, max_runs: int = 400):
+def _still_fails(mod, plan, sig, history=()) -> bool:
+    _preload()
+    return bool(_isolated(_fails_after, mod.ID, list(history), plan, sig))
+
+
+def minimise_history(mod, history: list, plan, sig: str, budget_s: float = 60.0):
+    """The violation shows only after earlier runs in the same process: find a small set of them (delta debugging)."""
+    t0 = time.time()
+    items = list(history)
+    n = 2
+    while items and time.time() - t0 < budget_s:
+        size = max(1, len(items) // n)
+        removed = False
+        for i in range(0, len(items), size):
+            cand = items[:i] + items[i + size:]
+            if _still_fails(mod, plan, sig, cand):
+                items = cand
+                removed = True
+                break
+            if time.time() - t0 >= budget_s:
+                break
+        if not removed:
+            if size == 1:
+                break
+            n = min(len(items), n * 2)
+    return items
+
+
+def minimise(mod, plan: dict[str, Any], sig: str, budget_s: float = 25.0, max_runs: int = 400, history=()):
     """Delta debugging over the plan's op list and fault table, then module-specific shrinks."""
     t0 = time.time()
     runs = 0
@@ -246,7 +336,7 @@ def minimise(mod, plan: dict[str, Any], sig: str, budget_s: float = 25.0, max_ru
     def ok(cand):
         nonlocal runs
         runs += 1
-        return _still_fails(mod, cand, sig)
+        return _still_fails(mod, cand, sig, history)
 
     if not ok(plan):
         return plan, runs, False
@@ -334,6 +424,10 @@ def replay_file(path: str) -> int:
     mod = load_prop(pid)
     plan = rp["plan"]
     plan["replay"] = True
+    for h in rp.get("history") or []:
+        # the violation shows only after these runs were executed in the same process (state carried between instances)
+        h["replay"] = True
+        run_one(mod, h)
     res = run_one(mod, plan)
     want = rp["expect"]["signature"]
     got = [sig_of(v) for v in res["violations"]]
@@ -408,6 +502,23 @@ def check(pid: str, tier: str, master: int) -> int:
             continue
         first = slot["first"]
         plan_min, mruns, reproduced = minimise(mod, first["plan"], s)
+        history: list = []
+        if not reproduced and first.get("chunk_lo") is not None and first["index"] > first["chunk_lo"]:
+            # alone, in a pristine process, the run is clean: the violation depends on the runs executed before it in the
+            # same process - the code under test carries state from one system instance to the next. Rebuild that history
+            # (the chunk's earlier runs, in order) and reduce it.
+            preds = []
+            for j in range(first["chunk_lo"], first["index"]):
+                sd = seed_for(master, pid, j)
+                pl = mod.gen_index(j, sd, tier) if hasattr(mod, "gen_index") else mod.gen(sd, tier)
+                pl.setdefault("seed", sd)
+                preds.append(json.loads(json.dumps(pl, default=str)))
+            plan0 = json.loads(json.dumps(first["plan"], default=str))
+            plan0["replay"] = True
+            if _still_fails(mod, plan0, s, preds):
+                history = minimise_history(mod, preds, plan0, s)
+                plan_min, mruns2, reproduced = minimise(mod, plan0, s, history=history)
+                mruns += mruns2
         path = os.path.join(REPLAY_DIR, f"{pid}-{first['seed']}-{hashlib.sha1(s.encode()).hexdigest()[:8]}.json")
         with open(path, "w", encoding="utf-8") as f:
             json.dump({"format": 1, "property": pid, "seed": first["seed"], "index": first["index"],
@@ -415,10 +526,15 @@ def check(pid: str, tier: str, master: int) -> int:
                        "expect": {"clause": first["violation"]["clause"], "signature": s},
                        "detail": first["violation"].get("detail"),
                        "minimise": {"runs": mruns, "reproduced_in_process": reproduced},
+                       "history": history,
                        "plan": plan_min}, f, indent=1, sort_keys=True, default=str)
         fresh = _fresh_replay_ok(path) if reproduced else False
+        detail = first["violation"].get("detail")
+        if history:
+            detail = (f"[only after {len(history)} earlier run(s) in the same process - state is carried from one system "
+                      f"instance to the next; they are part of the replay file] {detail}")
         new_viol.append({"signature": s, "count": slot["count"], "replay": path,
-                         "fresh_replay_reproduces": fresh, "detail": first["violation"].get("detail")})
+                         "fresh_replay_reproduces": fresh, "detail": detail})
     wall = time.time() - t0
     runs = merged["runs"]
     rph = int(runs / max(wall, 1e-6) * 3600)
